@@ -16,6 +16,19 @@ def check(run):
         crules.reserve_rules(run, r3, ast)
         crules.alloc_rules(run, r3, ast)
         crules.model_rules(run, r3, ast, parts=("params",))
+        # a class only gets a cell for a method if it is known to derive from the method's class: every listed base of every
+        # registration record is recorded
+        crules.merge_rules(run, r3, None, ast)
+        # the v-table pointer a call starts from is the one this update installed
+        if "C04-vptr" not in run.rules:
+            run.rule("C04-vptr", "the v-table pointer table is rewritten (overwriting) by every update at the key calls read it at", floor=3)
+        from . import c09
+        c09.table_writer_rule(run, ast, "C04-vptr")
+        # which classes get a cell for a method (covariant set of its parameter class), and what is written in a class's cells
+        if "C04-cells" not in run.rules:
+            run.rule("C04-cells", "a class gets a cell for (method, parameter) iff it is in the covariant set of the parameter's class; v-table entries carry (method, parameter, group); install_gv fills every entry", floor=8)
+        crules.applicable_rules(run, "C04-cells", ast)
+        crules.table_rules(run, "C04-cells", ast)
     run.assumptions += ["the call-time read vptr[slot] is decided by C01-walk; with the pointer biased by -first_slot the effective cell is slot - first_slot at all three sites",
                         "C04-reserve is the structural invariant the allocator's collision-freedom argument rests on (every slot taken is reserved in all bases and "
                         "in all covariant classes' bases); a new guard on one of these steps is reported - a behaviour-preserving guard would need its own argument",
